@@ -39,12 +39,14 @@ type Scenario struct {
 	Horizon Dur `json:"horizon"` // virtual time at which the context is cancelled
 	Grace   Dur `json:"grace"`   // extra virtual time for orderly shutdown
 
-	TempPoll         Dur     `json:"tempPoll"`
-	RpmPoll          Dur     `json:"rpmPoll"`
-	Tick             Dur     `json:"tick"`
-	TempWin          int     `json:"tempWin"`
-	RpmWin           int     `json:"rpmWin"`
-	ParallelInit     bool    `json:"parallelInit"`
+	TempPoll     Dur  `json:"tempPoll"`
+	RpmPoll      Dur  `json:"rpmPoll"`
+	Tick         Dur  `json:"tick"`
+	TempWin      int  `json:"tempWin"`
+	RpmWin       int  `json:"rpmWin"`
+	ParallelInit bool `json:"parallelInit"`
+	// FalseWord (L2): how the configuration document spells a false runFanInitializationInParallel ("" = false)
+	FalseWord        string  `json:"falseWord,omitempty"`
 	FanResponseDelay int     `json:"fanResponseDelay"`
 	MaxRpmDiff       float64 `json:"maxRpmDiff"`
 
@@ -144,6 +146,9 @@ type SensorSpec struct {
 	TempN int `json:"tempN,omitempty"` // tempN_input number on the chip
 	// cmd: output format of the script: "int" (plain), "float" ("%.3f")
 	CmdFormat string `json:"cmdFormat,omitempty"`
+	// HomeRelative (file sensors): the configured path starts with "~" (the file lives below the home
+	// directory of the user running the daemon, in a scratch directory removed with the world)
+	HomeRelative bool `json:"homeRelative,omitempty"`
 }
 
 type PidSpec struct {
